@@ -56,7 +56,7 @@ CLASSES = [
 ]
 BUDGET = {
     "quick": dict(cases=300, shards=4, timeout=600),
-    "thorough": dict(cases=1000, shards=16, timeout=3000),
+    "thorough": dict(cases=8000, shards=16, timeout=3000),
 }
 _EV_Q = {
     "accumulate": 1500, "store": 500, "mvn_call": 400, "mean_var_norm": 30, "feat_deltas": 100,
